@@ -1,4 +1,6 @@
-package parquet_test
+package scratch
+
+// D85 (C19/C03): failed (panicked) before the fix commit; see known_findings.json.
 
 import (
 	"bytes"
@@ -19,7 +21,7 @@ import (
 // above the column's maximum, and WriteRowGroup panics with
 // "index out of range [2] with length 2". The same rows written through
 // GenericWriter.Write round-trip fine.
-func TestPreexistingC19RepeatedVariantThroughBuffer(t *testing.T) {
+func TestD85RepeatedVariantThroughBuffer(t *testing.T) {
 	shredded, err := parquet.ShreddedVariant(parquet.Int(64))
 	if err != nil {
 		t.Fatal(err)
